@@ -32,15 +32,26 @@ FIRST = {
     "C05-F": "missed -> permanent silence from every frame on, ExactlyOneAtQuiescence among C05's monitors",
     "C10-E": "missed -> Network-Number-Is corrections followed by routed requests",
     "C10-F": "missed -> same MAC and invoke ID on another network while a segmented answer is open",
+    # round 4 (C01 C07 C08 C18: E F; the others: G H)
+    "C14-G": "missed (a manager existed from the first import of the harness) -> Kernel.tla EarlyAt / EarlyRec / Start, boot histories",
+    "C14-H": "missed (tasks never acted on other tasks; passes only through run_once) -> TaskDoes, sequential ghost walk, passes through core.run",
+    "C07-F": "missed by C07 (an exception of another class for a reserved code point is still a refusal); caught by C10 (request unanswered, transaction left)",
+    "C12-H": "missed (WindowBound only compared a burst with its own window field) -> FirstSegmentAlone ghost monitor, lost / late first ack after a segmented request",
+    "C17-G": "missed by C17 (one object at a time, harness picks due timers); caught by C14 (deep-heap histories)",
+    "C06-G": "missed (station addresses were unique across the internetwork) -> router ports reuse station addresses of other networks",
+    "C11-H": "missed -> IOQ.tla AbortPending (the application gives up a queued request)",
+    "C15-H": "missed -> well-formed value of the type followed by a surplus component",
+    "C10-G": "missed -> device that files every accepted I-Am, damaged I-Ams then requests; found F58 on the way",
+    "C10-H": "missed -> the device as a registered foreign device, BVLL results from the BBMD's address and from clients",
 }
 rows = []
 for d in sorted(os.listdir(os.path.join(HERE, "seeded"))):
-    m = re.match(r"^(C\d\d)-([C-F])$", d)
+    m = re.match(r"^(C\d\d)-([C-H])$", d)
     if not m:
         continue
     p = os.path.join(HERE, "seeded", d)
     notes = open(os.path.join(p, "notes.txt")).read().strip().split("\n")
-    what = re.sub(r"^(C\d\d )?[Vv]ariant [A-F]\s*[-:]+\s*", "", notes[0]).strip()[:170]
+    what = re.sub(r"^(C\d\d )?[Vv]ariant [A-H]\s*[-:]+\s*", "", notes[0]).strip()[:170]
     fin = open(os.path.join(p, "final.txt")).read().strip().split("\n") if os.path.exists(os.path.join(p, "final.txt")) else []
     res = []
     for line in fin:
